@@ -30,6 +30,13 @@ LoadDef(genomes, sigIds, idAttr) ==
                   \* pairing: position (0-based) in the signature file of each genome's own signature
                   pair |-> [j \in DOMAIN genomes |-> (CHOOSE p \in DOMAIN sigIds : sigIds[p] = The(IdOf(genomes, j, a))) - 1]]
 
+\* two genomes carrying the same identifier value (possible for ncbi_id, which is unique only together with ncbi_db): the statement
+\* speaks of THE signature of a genome and is silent here; refusing to load and pairing both genomes with that signature are both
+\* accepted - a database that silently lacks one of the genomes never is
+Ambiguous(genomes, idAttr) ==
+  idAttr # None /\ The(idAttr) \in IdAttrs /\
+  \E i, j \in DOMAIN genomes : i # j /\ IdOf(genomes, i, The(idAttr)) # None /\ IdOf(genomes, i, The(idAttr)) = IdOf(genomes, j, The(idAttr))
+
 \* a loaded database (genome order g, signature indices I) is correct iff it lists every genome exactly once
 \* and pairs each with its own signature
 PairingCorrect(genomes, sigIds, idAttr, g, I) ==
